@@ -3,6 +3,7 @@ package main
 import (
 	"fmt"
 	"go/constant"
+	"go/token"
 	"go/types"
 	"os"
 	"sort"
@@ -186,7 +187,10 @@ func (e *Env) lookupName(name string) (*Val, error) {
 	}
 	if !e.noProgram {
 		if e.bodyLocals && e.phiOverride == nil {
-			// inside a loop body: the latest definition reaching this point, else the loop variable itself
+			// inside a function body: the definition of the variable that reaches this point
+			if v := vc.resolveAtPoint(e, name); v != nil {
+				return v, nil
+			}
 			if v, err := vc.resolveLocal(e, name); err == nil && v != nil {
 				return v, nil
 			}
@@ -273,6 +277,105 @@ func bigLitStr(s string) string {
 		return "(- " + s[1:] + ")"
 	}
 	return s
+}
+
+// resolveAtPoint finds the SSA value a source variable has at the current instruction (at / exits / returns
+// clauses): the closest dominating binding among the debug references of the variables of that name whose scope
+// contains the point and the phi nodes go/ssa created for that name (merges after if/else, loop headers).
+func (vc *FnVC) resolveAtPoint(e *Env, name string) *Val {
+	cur := vc.curBlock
+	if cur == nil {
+		return nil
+	}
+	curIdx := len(cur.Instrs)
+	if vc.curInstr != nil && vc.curInstr.Block() == cur {
+		for i, in := range cur.Instrs {
+			if in == vc.curInstr {
+				curIdx = i
+			}
+		}
+	}
+	type cand struct {
+		block *ssa.BasicBlock
+		idx   int
+		val   ssa.Value
+		addr  bool
+	}
+	var cands []cand
+	var pos token.Pos
+	if vc.curInstr != nil {
+		pos = vc.curInstr.Pos()
+	}
+	syn := vc.fn.Syntax()
+	for obj, bs := range vc.debugVal {
+		if obj.Name() != name {
+			continue
+		}
+		v, isVar := obj.(*types.Var)
+		if !isVar || v.IsField() || (v.Pkg() != nil && v.Parent() == v.Pkg().Scope()) {
+			continue
+		}
+		if pos.IsValid() && syn != nil && pos >= syn.Pos() && pos <= syn.End() && obj.Parent() != nil && obj.Parent() != types.Universe && !obj.Parent().Contains(pos) {
+			continue
+		}
+		for _, b := range bs {
+			cands = append(cands, cand{b.block, b.idx, b.val, b.addr})
+		}
+	}
+	if len(cands) == 0 {
+		return nil
+	}
+	// address-taken variables: the cell is the variable
+	for _, c := range cands {
+		if c.addr {
+			pv := vc.val(e.st, c.val)
+			if pt, ok := pv.T.Underlying().(*types.Pointer); ok && isStruct(pt.Elem()) {
+				return pv
+			}
+			return vc.load(e.st, pv)
+		}
+	}
+	for _, b := range vc.fn.Blocks {
+		for i, in := range b.Instrs {
+			phi, ok := in.(*ssa.Phi)
+			if !ok {
+				break
+			}
+			if phiAlias(phi.Comment) == name {
+				cands = append(cands, cand{b, i - len(b.Instrs) - 1, phi, false}) // before every debug reference of the block
+			}
+		}
+	}
+	var best *cand
+	for i := range cands {
+		c := &cands[i]
+		if c.block == cur {
+			if c.idx >= curIdx {
+				continue
+			}
+		} else if !c.block.Dominates(cur) {
+			continue
+		}
+		if _, isInstr := c.val.(ssa.Instruction); isInstr {
+			if _, done := vc.vals[c.val]; !done {
+				if _, isPhi := c.val.(*ssa.Phi); !isPhi || e.phiVal == nil || e.phiVal[c.val.(*ssa.Phi)] == nil {
+					continue
+				}
+			}
+		}
+		if best == nil || (best.block != c.block && best.block.Dominates(c.block)) || (best.block == c.block && c.idx > best.idx) {
+			best = c
+		}
+	}
+	if best == nil {
+		return nil
+	}
+	if pv, ok := best.val.(*ssa.Phi); ok && e.phiVal != nil {
+		if v, ok := e.phiVal[pv]; ok {
+			return v
+		}
+	}
+	return vc.val(e.st, best.val)
 }
 
 // resolveLocal maps a source variable name to its SSA value at the current point (loop header or return).
